@@ -102,8 +102,8 @@ Theorem C14_src_Close_isDone_Len :
 Proof. exact (conj Trans.EquivRing.ring_Close (conj Trans.EquivRing.ring_isDone Trans.EquivRing.ring_Len)). Qed.
 Print Assumptions C14_src_Close_isDone_Len.
 
-(* ---- the sequential model is a lossless FIFO over every history of complete calls (Write, the writeMessage path,
-   Read, ReadPeek, ReadWait, ReadCommit, Close), with any arguments: together with the C14_src_* theorems above the
+(* ---- the sequential model is a lossless FIFO over every history of complete calls (Write, the writeMessage path, a
+   round of ReadFrom = reserve / partial fill / commit, Read, ReadPeek, ReadWait, ReadCommit, Close), with any arguments: together with the C14_src_* theorems above the
    chain source -> Ring/Seq.v -> property is closed by proof for the sequential reading of service/buffer.go ---- *)
 From Ring Require SeqFifo ProofsSeqFifo.
 
